@@ -8,6 +8,10 @@ EXTENDS Ffldb
 \* (roll-over is `offset + record > Limit'); with Limit = 279 three small
 \* ones or a small and a large one do.  The harness builds real blocks of
 \* exactly these serialized lengths.
+\* The order in which transaction.writePendingAndCommit deletes pruned block
+\* files, as in the code under test (see Ffldb.tla PruneLast).
+MC_PruneLast == TRUE
+
 MC_RawLen == [b \in {"B1", "B2", "B3"} |-> IF b = "B3" THEN 174 ELSE 81]
 
 K0 == <<>>
